@@ -315,13 +315,16 @@ func vpHeartbeatStep(P int, params GossipSubParams, ticks0 uint64) {
 		vpAssert(added-addedOutb <= maxInt(0, D-m1), "outside opportunistic ticks, additions beyond the under-subscription refill are outbound peers only")
 	}
 	w.assertInv(true)
-	if Dlo > 0 {
+	if Dlo > 0 && P > D {
 		vpCover(m1 < Dlo && cand > D-m1, "under-subscribed with spare candidates")
 	}
 	if Dhi <= P {
 		vpCover(m1 >= Dhi && removed > 0, "over-subscribed and cut")
 	}
 	vpCover(m0 > m1, "negative member pruned")
+	if Dout > 0 && Dlo <= P {
+		vpCover(m1 >= Dlo && m1 < Dhi && added > 0 && !og, "outbound quota refilled in a mesh that is within bounds")
+	}
 }
 
 func maxInt(a, b int) int {
@@ -345,6 +348,8 @@ func vpHT_C07_heartbeat_b() { vpOpt("unwind", 10); vpHeartbeatStep(3, vpParamsTu
 func vpHT_C07_heartbeat_p4a() { vpOpt("unwind", 10); vpHeartbeatStep(4, vpParamsTuple(2, 1, 3, 1, 0), 0) }
 func vpHT_C07_heartbeat_p4b() { vpOpt("unwind", 10); vpHeartbeatStep(4, vpParamsTuple(2, 2, 3, 2, 0), 1) }
 // (P=5 with (4,2,4,1,1) was tried: 578k terms, the solver does not even decide satisfiability of the assumptions in 600 s — outside)
+// outbound quota: Dout=1 with a mesh that is within [Dlo,Dhi) — the step "do we have enough outbound peers?" runs alone
+func vpH_C07_heartbeat_out() { vpOpt("unwind", 10); vpHeartbeatStep(3, vpParamsTuple(4, 2, 4, 1, 1), 0) }
 func vpH_C07_heartbeat_zero() { vpOpt("unwind", 10); vpHeartbeatStep(3, vpParamsTuple(0, 0, 0, 0, 0), 0) }
 
 // graftprune: the heartbeat's coalescing sender. Arbitrary per-peer GRAFT and PRUNE topic lists over two topics (a peer
